@@ -1,6 +1,7 @@
 package macaroon
 
 import (
+	"bytes"
 	"errors"
 
 	msgpack "github.com/vmihailenco/msgpack/v5"
@@ -15,12 +16,16 @@ const maxDecodeDepth = 200
 
 var errTooDeep = errors.New("msgpack nesting too deep")
 
-// unmarshal is msgpack.Unmarshal behind the nesting check.
+// unmarshal is msgpack.Unmarshal behind the nesting check, with a decoder of
+// its own: msgpack.Unmarshal takes decoders from a pool, and a decoder keeps
+// its read buffer, which grows by a megabyte every time a length prefix
+// announces more than the input holds. A handful of ten-byte inputs then makes
+// single calls allocate hundreds of megabytes and the pool hold gigabytes.
 func unmarshal(buf []byte, v interface{}) error {
 	if err := checkDepth(buf, maxDecodeDepth); err != nil {
 		return err
 	}
-	return msgpack.Unmarshal(buf, v)
+	return msgpack.NewDecoder(bytes.NewReader(buf)).Decode(v)
 }
 
 // checkDepth walks the first msgpack value of buf without recursion and
